@@ -1,11 +1,10 @@
 import Geo.Props.C19
-open Geo
-#print axioms T19_index_table_1
-#print axioms T19_index_table_2
-#print axioms T19_index_table_3
-#print axioms T19_index_counterexamples
-#print axioms T19_types_of_mapping
-#print axioms T19_transpose_types
-#print axioms T19_cycle_table
-#print axioms T19_point_add_finite
-#print axioms T19_point_add_direction
+#print axioms Geo.T19_index_table_1
+#print axioms Geo.T19_index_table_2
+#print axioms Geo.T19_index_table_3
+#print axioms Geo.T19_index_counterexamples
+#print axioms Geo.T19_types_of_mapping
+#print axioms Geo.T19_transpose_types
+#print axioms Geo.T19_cycle_table
+#print axioms Geo.T19_point_add_finite
+#print axioms Geo.T19_point_add_direction
